@@ -27,3 +27,71 @@ def expect_lu(ct, n, band=None):
     b = band if band is not None else n
     return ('extern "C" void @R@exp(const %s* lam, const %s* del, const %s* mu, %s* L, %s* U){ for(int i=0;i<%d;i++) for(int j=0;j<%d;j++){ L[i*%d+j] = (i==j) ? (%s)1 : ((i>j && i-j<=%d) ? lam[i*%d+j] : (%s)0); U[i*%d+j] = (i==j) ? del[i] : ((i<j && j-i<=%d) ? del[i]*mu[i*%d+j] : (%s)0); } }'
             % (ct, ct, ct, ct, ct, n, n, n, ct, b, n, ct, n, b, n, ct))
+
+
+# ------------------------------------------------------------------ pivot helpers under every constant permutation
+# The pivot *search* is data dependent, but everything the pivoted strategies do with its result is plain data movement
+# steered by the permutation.  For every permutation p (as a constant index tensor / 0-1 matrix) the helpers must satisfy the
+# algebraic contracts that make the pivoted strategies correct for WHATEVER bijection the search returns:
+#   colwise : reconstruct_colwise(Y,p) * A == Y * apply_pivot(A,p)          (=> inverse/solve<SimpleInvPiv>: X*A = B^-1*B = I, with B = apply_pivot(A,p), Y = B^-1)
+#   recon   : apply_pivot(reconstruct(L,U,P),P) == L*U                      (=> reconstruct(L,U,P) is the matrix whose pivoted form is L*U)
+#   matmul  : apply_pivot(A,Pmat) == Pmat*A  (copy map: row i <- row p[i]), and the in-place forms agree with the value forms
+#   recon2  : apply_pivot(reconstruct(A,p),p) == A
+import itertools, random
+
+
+def perm_regions(t, n, p):
+    pm = [0.0] * (n * n)
+    for i in range(n):
+        pm[i * n + p[i]] = 1.0
+    return [{'name': 'pv', 'ety': 'i64', 'cells': n, 'kind': 'tensor', 'role': 'in', 'init': 'ints', 'ints': list(p)},
+            dict(treg('pm', t, [n, n]), init='fps', fps=pm)]
+
+
+def mk_pivot_helper(t, n, p, what):
+    ct = CTYPE[t]; tt = tensor_t(t, [n, n]); pt = 'Tensor<size_t,%d>' % n
+    tag = ''.join(map(str, p)) if n <= 9 else 'h%d' % (hash(tuple(p)) % 100000)
+    pr = {'type': t, 'n': n, 'perm': list(p), 'what': what}
+    regs = perm_regions(t, n, p)
+    if what == 'colwise':
+        wit = 'extern "C" void @W@(const %s& A, const %s& Y, const %s& pv, %s& B, %s& X){ B = apply_pivot(A,pv); X = reconstruct_colwise(Y,pv); }' % (tt, tt, pt, tt, tt)
+        ref = ('extern "C" void @R@(const %s* A, const %s* Y, const %s* B, const %s* X, %s* R){ for(int i=0;i<%d;i++) for(int j=0;j<%d;j++){ %s s=0, u=0; for(int k=0;k<%d;k++){ s += X[i*%d+k]*A[k*%d+j]; u += Y[i*%d+k]*B[k*%d+j]; } R[i*%d+j] = s - u; } }'
+               % (ct, ct, ct, ct, ct, n, n, ct, n, n, n, n, n, n))
+        regions = [treg('A', t, [n, n]), treg('Y', t, [n, n]), regs[0], treg('B', t, [n, n], 'out'), treg('X', t, [n, n], 'out'), rreg('R', t, n * n)]
+        stages = [{'mod': 'wit', 'fn': '@W@', 'args': ['A', 'Y', 'pv', 'B', 'X']}, {'mod': 'ref', 'fn': '@R@', 'args': ['A', 'Y', 'B', 'X', 'R']}]
+        obl = [{'kind': 'zero', 'region': 'R', 'cells': n * n}]
+    elif what in ('recon_vec', 'recon_mat'):
+        P, Pt, reg = ('pv', pt, regs[0]) if what == 'recon_vec' else ('pm', tt, regs[1])
+        wit = 'extern "C" void @W@(const %s& L, %s& U, const %s& %s, %s& R, %s& B){ R = reconstruct(L,U,%s); B = apply_pivot(R,%s); }' % (tt, tt, Pt, P, tt, tt, P, P)
+        ref = 'extern "C" void @R@(const %s* L, const %s* U, %s* M){ for(int i=0;i<%d;i++) for(int j=0;j<%d;j++){ %s s=0; for(int k=0;k<%d;k++) s += L[i*%d+k]*U[k*%d+j]; M[i*%d+j] = s; } }' % (ct, ct, ct, n, n, ct, n, n, n, n)
+        regions = [treg('L', t, [n, n]), treg('U', t, [n, n]), reg, treg('R', t, [n, n], 'out'), treg('B', t, [n, n], 'out'), rreg('M', t, n * n)]
+        stages = [{'mod': 'wit', 'fn': '@W@', 'args': ['L', 'U', P, 'R', 'B']}, {'mod': 'ref', 'fn': '@R@', 'args': ['L', 'U', 'M']}]
+        obl = [{'kind': 'equal', 'a': 'B', 'b': 'M', 'cells': n * n, 'mode': 'ALG'}]
+    elif what == 'apply_mat':
+        wit = 'extern "C" void @W@(const %s& A, const %s& pm, %s& B, %s& C){ B = apply_pivot(A,pm); C = A; apply_pivot_inplace(C,pm); }' % (tt, tt, tt, tt)
+        regions = [treg('A', t, [n, n]), regs[1], treg('B', t, [n, n], 'out'), treg('C', t, [n, n], 'out')]
+        stages = [{'mod': 'wit', 'fn': '@W@', 'args': ['A', 'pm', 'B', 'C']}]
+        m = [p[i] * n + j for i in range(n) for j in range(n)]       # (Pmat*A)(i,:) = A(p[i],:)
+        obl = [{'kind': 'copy', 'region': 'B', 'ns': 'A', 'map': m}, {'kind': 'copy', 'region': 'C', 'ns': 'A', 'map': m}]
+    elif what == 'apply_vec':
+        wit = 'extern "C" void @W@(const %s& A, const %s& pv, %s& B, %s& C){ B = apply_pivot(A,pv); C = A; apply_pivot_inplace(C,pv); }' % (tt, pt, tt, tt)
+        regions = [treg('A', t, [n, n]), regs[0], treg('B', t, [n, n], 'out'), treg('C', t, [n, n], 'out')]
+        stages = [{'mod': 'wit', 'fn': '@W@', 'args': ['A', 'pv', 'B', 'C']}]
+        obl = [{'kind': 'equal', 'a': 'B', 'b': 'C', 'cells': n * n, 'mode': 'EXACT'}]      # value form and in-place form agree
+    elif what == 'recon2':
+        wit = 'extern "C" void @W@(const %s& A, const %s& pv, %s& B){ B = apply_pivot(reconstruct(A,pv),pv); }' % (tt, pt, tt)
+        regions = [treg('A', t, [n, n]), regs[0], treg('B', t, [n, n], 'out')]
+        stages = [{'mod': 'wit', 'fn': '@W@', 'args': ['A', 'pv', 'B']}]
+        obl = [{'kind': 'copy', 'region': 'B', 'ns': 'A', 'map': list(range(n * n))}]
+    return Witness('piv_%s_%s_%d_%s' % (what, t, n, tag), 'pivot.' + what, pr, wit, ref if what in ('colwise', 'recon_vec', 'recon_mat') else '', regions, stages, obl)
+
+
+def pivot_helper_witnesses(kinds, tier):
+    rng = random.Random(4711)
+    W = []
+    for n in (2, 3, 4, 5, 8, 9) + (() if tier == 'quick' else (6, 7, 16, 17)):
+        perms = list(itertools.permutations(range(n))) if n <= 4 else [tuple(rng.sample(range(n), n)) for _ in range(10 if n <= 5 else 4)] + [tuple(list(range(1, n)) + [0])]
+        for k, p in enumerate(perms):
+            for what in kinds:
+                W.append(mk_pivot_helper('f64' if (k + n) % 2 else 'f32', n, p, what))
+    return W
